@@ -401,14 +401,33 @@ Fixpoint has_link (n : node) : bool :=
 
 (* ---------------------------------------------------------------- path spelling ------------- *)
 (* `dest := filepath.Join(to, name[len(from):])` in the walk callback.  godirwalk reports names below
-   filepath.Clean(from): the root itself as `cleaned` (the FIRST callback), an entry as
+   filepath.Clean(root): the root itself as `cleaned` (the FIRST callback), an entry as
    cleaned ++ "/" ++ rel.  Go's slice expression name[n:] panics when n > len(name).  A `from` that is
-   not a directory is never walked (no slicing). *)
+   not a directory is never walked (no slicing).
+
+   Since the fix of finding unclean-from-directory-panics the directory branch starts with
+   `from = filepath.Clean(from)`: the prefix that is stripped is the cleaned one.  Whether it does is
+   READ from the regenerated statement list: the first statement guarded by info.IsDir(). *)
 Definition rel_of (from name : str) : option str :=
   if Nat.leb (length from) (length name) then Some (skipn (length from) name) else None.
 
+Local Open Scope string_scope.
+Definition guard_isdir := "(info.IsDir())".
+Definition stmt_clean := "from = filepath.Clean(from)".
+Local Close Scope string_scope.
+
+Definition cleans_first : bool :=
+  match filter (fun st => String.eqb (fst st) guard_isdir) prog_RecursiveCopyOrLinkFile with
+  | st :: _ => String.eqb (snd st) stmt_clean
+  | [] => false
+  end.
+
+(* the value of `from` inside the callback; cleaned = filepath.Clean(from) as Go computes it (Clean is
+   idempotent: the walk below the cleaned path reports the same names) *)
+Definition prefix_stripped (from cleaned : str) : str := if cleans_first then cleaned else from.
+
 Definition walk_panics (from cleaned : str) (isdir : bool) : bool :=
-  isdir && match rel_of from cleaned with None => true | Some _ => false end.
+  isdir && match rel_of (prefix_stripped from cleaned) cleaned with None => true | Some _ => false end.
 
 (* ---------------------------------------------------------------- correspondence cases ------ *)
 Fixpoint node_eqb (a b : node) : bool :=
